@@ -11,6 +11,7 @@ mod refhash;
 mod stordrv;
 mod triedrv;
 mod wire;
+mod wiredrv;
 
 fn main() {
     let args: Vec<String> = std::env::args().collect();
@@ -23,6 +24,7 @@ fn main() {
         "conc" => concdrv::main_conc(&args[2..]),
         "markers" => markdrv::main_markers(&args[2..]),
         "forge" => forge::main_forge(&args[2..]),
+        "wire" => wiredrv::main_wire(&args[2..]),
         other => {
             eprintln!("unknown subcommand {other:?}");
             std::process::exit(2);
